@@ -49,6 +49,11 @@ type propCfg struct {
 	Assume    []string
 	GoMaxProc string
 	Batch     int // isolated properties: runs per fresh child process
+	// OrderResidual: the event log (not the outcome) may differ between executions of one
+	// run index because the code under test starts goroutines while ranging over a Go map
+	// (modload.spotCheckRoots); the self-test then requires equal outcomes only and reports
+	// how many run indices had differing logs.
+	OrderResidual bool
 }
 
 var props = map[string]*propCfg{
@@ -63,7 +68,7 @@ var props = map[string]*propCfg{
 		},
 	},
 	"C17": {
-		ID: "C17", Pkg: "./c17/", Level: "exploration",
+		ID: "C17", Pkg: "./c17/", Level: "exploration", OrderResidual: true,
 		Quick:    tierCfg{Runs: 5000, Budget: 240 * time.Second, Workers: 16},
 		Thorough: tierCfg{Runs: 800000, Budget: 45 * time.Minute, Workers: 16},
 		Assume: []string{
@@ -623,6 +628,7 @@ func selftest(p *propCfg, n int) bool {
 	}
 	cfgs := []cfg{{1, "1"}, {4, "4"}, {16, "16"}, {12, "2"}, {16, "16"}}
 	var ref map[int]string
+	residual := map[int]bool{}
 	ok := true
 	procs := 0
 	for ci, c := range cfgs {
@@ -666,6 +672,10 @@ func selftest(p *propCfg, n int) bool {
 		} else {
 			for i, h := range ref {
 				if got[i] != h {
+					if p.OrderResidual && outcomeOf(got[i]) == outcomeOf(h) {
+						residual[i] = true
+						continue
+					}
 					fmt.Printf("selftest %s: run %d diverged: [%s] vs [%s] (workers=%d GOMAXPROCS=%s)\n", p.ID, i, h, got[i], c.workers, c.procs)
 					ok = false
 				}
@@ -673,7 +683,11 @@ func selftest(p *propCfg, n int) bool {
 		}
 		os.RemoveAll(dir)
 	}
-	fmt.Printf("selftest %s: %d run indices x %d configurations in %d OS processes: deterministic=%v\n", p.ID, n, len(cfgs), procs, ok)
+	extra := ""
+	if p.OrderResidual {
+		extra = fmt.Sprintf(" (outcomes identical; event logs of %d run indices differ in the order of concurrent spot checks, which follows Go map iteration)", len(residual))
+	}
+	fmt.Printf("selftest %s: %d run indices x %d configurations in %d OS processes: deterministic=%v%s\n", p.ID, n, len(cfgs), procs, ok, extra)
 	return ok
 }
 
@@ -689,4 +703,13 @@ func envInt(name string, def int) int {
 		return v
 	}
 	return def
+}
+
+// outcomeOf strips event-log hash and step count from a self-test line: "hash steps class final".
+func outcomeOf(line string) string {
+	f := strings.SplitN(line, " ", 3)
+	if len(f) < 3 {
+		return line
+	}
+	return f[2]
 }
